@@ -146,13 +146,30 @@ def shared_limit(pid, v, sc, binary):
         if found2 != [(recs[idx]["tr"], "C12")]:
             raise Inconclusive("Mon_LimitShared does not reject a log with one lost element (vacuity guard): %r" % (found2,))
         guard = "one delivered element removed: rejected (C12) for exactly that trace"
-    tight, cnt, cfg = 0, {}, None
-    for r in recs:
+    tight, cnt, cfg, victim = 0, {}, None, None
+    for i, r in enumerate(recs):
         if r["ev"] == "Reset":
             cnt, cfg = {}, r
         elif r["ev"] == "O":
             cnt[r["d"]] = cnt.get(r["d"], 0) + 1
-            tight += cnt[r["d"]] == cfg["Q"] * (r["now"] // cfg["I"] + 1)
+            if cnt[r["d"]] == cfg["Q"] * (r["now"] // cfg["I"] + 1):
+                tight += 1
+                if r["now"] >= cfg["I"] and victim is None:
+                    victim = (i, cfg["I"])
+    if not found and pid == "C04":   # binding / vacuity guard: an emission that sits AT the bound, moved one Interval earlier, must be rejected (C04)
+        if victim is None:
+            guard = "skipped: no emission at the cumulative bound after the first interval in this run"
+        else:
+            sub3 = os.path.join(sub, "corrupt04")
+            os.makedirs(sub3, exist_ok=True)
+            stage_specs(sub3)
+            with open(os.path.join(sub3, "limit_shared.ndjson"), "w") as f:
+                for i, r in enumerate(recs):
+                    f.write(json.dumps(dict(r, now=r["now"] - victim[1]) if i == victim[0] else r) + "\n")
+            res3, found3 = judge(sub3, len(recs))
+            if (recs[victim[0]]["tr"], "C04") not in found3:
+                raise Inconclusive("Mon_LimitShared does not reject an emission moved one Interval earlier (vacuity guard): %r" % (found3,))
+            guard = "an emission at the bound moved one Interval earlier: rejected (C04)"
     v.cov["shared_input"] = dict(traces=len(by_tr), disciplines=sum(t[0]["n"] for t in by_tr.values()), elements=sum(1 for r in recs if r["ev"] == "O"),
                                  emissions_exactly_at_the_cumulative_bound=tight, monitor_states=res.distinct, violations=len(mine),
                                  other_property_findings=sorted({p for _, p in found if p != pid}), corruption_guard=guard, wall_s=round(wall, 1))
